@@ -367,6 +367,9 @@ def eval_encode(rule, path: str, style, cls: str, either: bool = False):
         v('several-routes', f'one rule text produced differing routes {obs["routes"]}')
         return 'enc:several', True, viols
     if exp[0] == 'refuse':
+        if st == 'pack-raised' and obs['pack_exc'] == 'Notify':
+            # Flow._encode_length / CIDR refuse on purpose with a Notify when asked to pack: a loud refusal
+            return 'enc:unencodable-refused-at-pack', True, viols
         if st == 'pack-raised':
             v(f'unencodable-accepted:pack-raises-{obs["pack_exc"]}',
               f'rule has no RFC encoding ({exp[1]}) but the text is accepted as a route, and packing it raises {obs["pack_exc"]}')
@@ -859,6 +862,9 @@ def mutations(rule):
     yield dec(value, 'canonical')
     # the same NLRI with a two-octet length although it is below 240 ("can be encoded as a single octet")
     yield {'k': 'dec', 'afi': afi, 'vpn': vpn, 'nlri': (struct.pack('!H', 0xF000 | n) + value).hex(), 'cls': 'two-octet-length-below-240'}
+    if vpn and n - 8 < 8:
+        # the rule of another SAFI under flow-vpn: no room for the 8 octet route distinguisher (RFC 8955 8)
+        yield dec(value[8:], 'flow-vpn-without-rd')
     for cut in range(n):
         yield dec(value[:cut], 'truncated')  # framed: the length says `cut`
         yield dec(value[:cut], 'truncated-attribute', length=n)  # the attribute ends before the NLRI does
@@ -933,10 +939,13 @@ def _block_worker(args):
                 continue
             decoded.add(key)
             data = fs.encode_nlri(rule)
-            dcase = {'k': 'dec', 'afi': rule['afi'], 'vpn': bool(rule.get('rd')), 'nlri': data.hex(), 'cls': 'canonical:' + case['cls']}
+            dcls = 'canonical:' + case['cls']
+            if block[0] == 'long':
+                dcls = 'canonical:nlri-length-below-256' if block[1] < 256 else 'canonical:nlri-length-256-or-more'
+            dcase = {'k': 'dec', 'afi': rule['afi'], 'vpn': bool(rule.get('rd')), 'nlri': data.hex(), 'cls': dcls}
             if len(data) > 300:
-                dcase = {'k': 'dec-gen', 'gen': case['gen'], 'cls': 'canonical:' + case['cls']}
-            outcome, nontrivial, viols = eval_decode(rule['afi'], bool(rule.get('rd')), data, 'canonical:' + case['cls'])
+                dcase = {'k': 'dec-gen', 'gen': case['gen'], 'cls': dcls}
+            outcome, nontrivial, viols = eval_decode(rule['afi'], bool(rule.get('rd')), data, dcls)
             ctx.count('executions')
             ctx.count(f'dec:{block[0]}')
             ctx.add_to_set('outcomes', outcome)
